@@ -171,6 +171,8 @@ Proof.
     apply (exec_capacity c w st v None false r Hwf HW Hfuse Hr Hadm (shrink_to c n)).
     + discriminate.
     + intros _. right. eexists. reflexivity.
+  - (* OSpareWrite *)
+    cbn [admissible] in Hadm. exact (exec_spare_write c w st a v k r Hwf HW Hfuse Hr Hadm).
   - (* ODownWrong *)
     destruct (sp_take c st (unext (wuw w)) v k (match k with TPop => 0 | _ => idx end) KDrop) as [r0|] eqn:E0; [|discriminate].
     injection Hr as <-. exact (exec_down_wrong c w st v k idx r0 Hwf HW Hfuse E0).
@@ -264,6 +266,7 @@ Proof.
     try (unfold sp_write in H; crush H; cbn; split; lia);
     try (unfold sp_swap in H; crush H; cbn; split; lia);
     try (unfold sp_lazy_down in H; crush H; cbn; split; lia);
+    try (unfold sp_spare_write in H; crush H; cbn; split; lia);
     crush H; cbn; split; lia.
 Qed.
 Lemma spec_nx_ge c st nx o r : spec_step c st nx o = Some r -> nx <= s_nx r.
@@ -427,6 +430,7 @@ Definition admissibleb (c : cfg) (w : world) (o : op) : bool :=
   | OShrinkToFit v | OShrinkTo v _ =>
       match get_vec v w with Some vv => c_sz c * vcap vv <=? alloc_limit | None => true end
   | OSplice _ v sb eb _ _ _ _ _ cl => adm_spliceb c w v sb eb cl
+  | OSpareWrite _ v k => match get_vec v w with Some vv => vlen vv + k <=? vcap vv | None => true end
   | OWithCapacity _ bk n =>
       bk_wfb bk && (n <=? usize_max)
       && match bk with BReloc c0 => c_sz c * N.max n c0 <=? alloc_limit | _ => c_sz c * n <=? alloc_limit end
@@ -524,6 +528,7 @@ Proof.
     try (apply adm_cloneb_sound; exact H);
     try (apply adm_vecb_sound; exact H); try (apply bk_wfb_sound; exact H);
     try (apply adm_reserveb_sound; exact H); try (apply adm_shrinkb_sound; exact H);
+    try (intros vv Hg; rewrite Hg in H; apply N.leb_le; exact H);
     intros d Hin; apply adm_vecb_sound; rewrite forallb_forall in H; apply H; exact Hin.
 Qed.
 Lemma Admissibleb_sound c ops : forall w, Admissibleb c w ops = true -> Admissible c w ops.
@@ -590,7 +595,9 @@ Definition ex_ops : list op :=
     OSplice Typed 9 (BIncluded 0) (BExcluded 1) [(true, KDown)] FinDrop RBox 1 None 4;
     OSplice Erased 8 (BIncluded 0) (BExcluded 0) [] FinDrop RWrap 0 None 2;
     (* at(1).lazy_clone().lazy_clone().downcast::<T>(): one Clone, the caller's; out of range: panics *)
-    OLazyDown 2 9 1; OLazyDown 1 9 7 ].
+    OLazyDown 2 9 1; OLazyDown 1 9 7;
+    (* two fresh values written into the spare capacity through the typed view, then set_len *)
+    OReserve 9 2; OSpareWrite Typed 9 2; OGet Erased 9 4 ].
 
 Example ex_spec_defined : exists rs, spec_run ex_cfg [] 1 ex_ops = Some rs /\ length rs = length ex_ops.
 Proof. eexists. split; [vm_compute; reflexivity|reflexivity]. Qed.
@@ -620,7 +627,8 @@ Example ex_outcomes :
      (0,0,[]); (0,0,[]); (2,1,[]); (2,1,[]); (2,3,[]);
      (0,0,[45; 46]); (0,0,[44; 47]); (0,0,[49; 50; 48]); (0,0,[52]);
      (0,0,[]); (0,0,[]); (2,1,[]);
-     (0,0,[1]); (0,0,[1; 1; 56; 0; 56]); (2,3,[]); (0,0,[62]); (2,1,[])].
+     (0,0,[1]); (0,0,[1; 1; 56; 0; 56]); (2,3,[]); (0,0,[62]); (2,1,[]);
+     (0,0,[]); (0,0,[]); (0,0,[64])].
 Proof. vm_compute. reflexivity. Qed.
 
 (** ** Corollaries in the vocabulary of the properties *)
